@@ -60,7 +60,18 @@ class Monitor(object):
         res = self.bridge.call_many([[fn, args] for fn, args, tag, judged in batch])
         ctx = self.ctx
         for (fn, args, tag, judged), r in zip(batch, res):
-            o = attach.call(self.py(fn), *args)
+            # the Python side runs every fifth call under a decimal context an embedding application may have set
+            attach.AMB['n'] += 1
+            attach.AMB['current'] = None
+            hc = attach.hostile_context(attach.AMB['n'])
+            if hc is None:
+                o = attach.call(self.py(fn), *args)
+            else:
+                import decimal
+                attach.AMB['current'] = hc[0]
+                ctx.count('ambient.decimal-context-calls')
+                with decimal.localcontext(hc[1]):
+                    o = attach.call(self.py(fn), *args)
             ctx.count('eval.' + fn)
             js_refuses = 'e' in r or 'nan' in r or 'undef' in r
             py_refuses = not o.ok or (isinstance(o.value, float) and o.value != o.value)
@@ -83,6 +94,7 @@ class Monitor(object):
             ctx.count('judged.' + fn)
             if ctx.nt((fn, repr(args))):
                 ctx.sample(fn, dict(case, value=o.value), 3)
+        attach.AMB['current'] = None
 
     @staticmethod
     def same(a, b):
